@@ -128,3 +128,30 @@ pub open spec fn co_shape(a: Type, b: Type) -> bool {
     co_int_uint(a, b) || co_complex_width(a, b) || co_narrow(a, b)
 }
 pub open spec fn co_const(a: Type, b: Type) -> bool { co_const_cross(a, b) || co_const_eq(a, b) }
+
+// ---- kinds (C08): the base type of a type is its variant -------------------------------------------
+/// `Type::X(..)` has base type `BaseType::X` (the two enums name their variants alike)
+pub open spec fn sp_base(t: Type) -> BaseType {
+    match t {
+        Type::Bit(_) => BaseType::Bit, Type::Qubit => BaseType::Qubit, Type::HardwareQubit => BaseType::HardwareQubit,
+        Type::Int(_, _) => BaseType::Int, Type::UInt(_, _) => BaseType::UInt, Type::Float(_, _) => BaseType::Float,
+        Type::Angle(_, _) => BaseType::Angle, Type::Complex(_, _) => BaseType::Complex, Type::Bool(_) => BaseType::Bool,
+        Type::Duration(_) => BaseType::Duration, Type::Stretch(_) => BaseType::Stretch, Type::BitArray(_, _) => BaseType::BitArray,
+        Type::QubitArray(_) => BaseType::QubitArray, Type::IntArray(_) => BaseType::IntArray, Type::UIntArray(_) => BaseType::UIntArray,
+        Type::FloatArray(_) => BaseType::FloatArray, Type::AngleArray(_) => BaseType::AngleArray, Type::ComplexArray(_) => BaseType::ComplexArray,
+        Type::BoolArray(_) => BaseType::BoolArray, Type::DurationArray(_) => BaseType::DurationArray, Type::Gate(_, _) => BaseType::Gate,
+        Type::SubroutineDef(_) => BaseType::SubroutineDef, Type::Range => BaseType::Range, Type::Set => BaseType::Set,
+        Type::Void => BaseType::Void, Type::ToDo => BaseType::ToDo, Type::Undefined => BaseType::Undefined,
+    }
+}
+pub open spec fn same_kind(a: Type, b: Type) -> bool { sp_base(a) == sp_base(b) }
+/// kinds that convert to and from nothing else: bit, bool, duration, stretch, angle, bit registers
+pub open spec fn closed_kind(t: Type) -> bool { t is Bit || t is Bool || t is Duration || t is Stretch || t is Angle || t is BitArray }
+/// conversions that must always be diagnosed (from the statement of C08): the kind is lowered
+/// (float -> int, complex -> real), or one side is bit / bool / duration / stretch / angle / a bit
+/// register and the other side is of another kind
+pub open spec fn must_diagnose(target: Type, value: Type) -> bool {
+    ((target is Int || target is UInt) && (value is Float || value is Complex))
+    || (target is Float && value is Complex)
+    || ((closed_kind(target) || closed_kind(value)) && !same_kind(target, value))
+}
